@@ -16,9 +16,9 @@ from .spec import all_addresses, spec_from_yaml_doc, yaml_expressible
 
 # ------------------------------------------------------------------------------------------- axes
 AXES = {
-    "shape": ["1-1", "2-1", "1-2", "1-1-1", "1-2-1"],
+    "shape": ["1-1", "2-1", "1-2", "1-1-1", "1-2-1", "1-1-1-1"],
     "topo": ["chain", "full", "star", "two_public", "island", "chain_rev"],
-    "fw": ["allow_all", "dmz_s0", "asym", "one_s1", "second_public_only", "inner_empty"],
+    "fw": ["allow_all", "dmz_s0", "asym", "one_s1", "second_public_only", "inner_empty", "split"],
     "hostfw": ["none", "deny_pivot", "deny_same_subnet", "deny_other"],
     "sw": ["1os1s1p", "2os2s2p", "1os2s1p", "2os1s2p"],
     "exploits": ["e0", "e0e1", "e0e2", "e1e3", "e0e3", "e0e0b", "e1e0"],
@@ -27,11 +27,11 @@ AXES = {
     "cost": ["unit", "frac", "fine"],
     "values": ["zero", "pos_neg", "frac"],
     "discovery": ["zero", "one", "frac", "big_neg"],
-    "sensitive": ["last", "two_subnets", "same_subnet", "public"],
+    "sensitive": ["last", "two_subnets", "same_subnet", "public", "three"],
     "step_limit": [None, 1, 3],
     "bounds": ["default", "enlarged"],
     "host_order": ["sorted", "reversed"],
-    "names": ["plain", "unsorted"],
+    "names": ["plain", "unsorted", "swapped"],
 }
 AXIS_ORDER = list(AXES.keys())
 
@@ -193,6 +193,9 @@ def build(choice, name=None):
             sens[addrs[0]] = 7
     elif kind == "public":
         sens[(1, 0)] = 10
+    elif kind == "three":
+        for k, a in enumerate(reversed(addrs[-3:] if len(addrs) >= 3 else addrs)):
+            sens[a] = [10, 7, 10.5][k]
     spec["sensitive_hosts"] = sens
     for a in sens:
         spec["hosts"][a].pop("value", None)
@@ -228,6 +231,11 @@ def build(choice, name=None):
             setrule((0, 2), [srvs[0]])
         else:
             setrule((0, 1), [srvs[0]])
+    elif fk == "split":
+        # rules leaving one subnet (or the internet) differ per destination: s0 towards odd, s1 towards even subnets
+        for (i, j) in list(fw):
+            if j > 0:
+                setrule((i, j), [srvs[0]] if j % 2 == 1 else [s1])
     elif fk == "inner_empty":
         for (i, j) in list(fw):
             if i > 0 and j > 0 and j == N - 1:
@@ -260,6 +268,10 @@ def build(choice, name=None):
         spec["address_space_bounds"] = None
     spec["host_order"] = choice.get("host_order", "sorted")
     spec["choice"] = dict(choice)
+    if choice.get("names") == "swapped":
+        # the same names in the opposite order (the order of the lists is part of the scenario, the SET is not)
+        for k in ("os", "services", "processes"):
+            spec[k] = list(reversed(spec[k]))
     if choice.get("names") == "unsorted":
         # names are labels: lists that are NOT in alphabetical order, names containing one another
         from .spec import rename_spec
@@ -373,6 +385,13 @@ def corner_specs():
     sp["firewall"][(0, 1)] = ["s1"]
     sp["firewall"][(1, 2)] = ["s1"]
     out.append(sp)
+    mk("corner-split-rules", shape="1-1-1", topo="star", fw="split", sw="1os2s1p", exploits="e0e3", sensitive="two_subnets")
+    mk("corner-split-two-public", shape="1-1-1", topo="two_public", fw="split", sw="1os2s1p", exploits="e0e3")
+    mk("corner-swapped-names", shape="1-2", sw="2os2s2p", exploits="e0e2", privescs="two", names="swapped", sensitive="two_subnets")
+    mk("corner-tree4", shape="1-1-1-1", topo="star", sensitive="three", discovery="one", sw="2os2s2p", exploits="e0e1",
+       privescs="two", hostfw="deny_other")
+    mk("corner-chain4", shape="1-1-1-1", topo="chain", fw="asym", sensitive="two_subnets", sw="1os2s1p", exploits="e0e3",
+       prob="half", cost="fine")
     mk("corner-inner-empty", shape="1-1-1", topo="full", fw="inner_empty", sw="1os2s1p", exploits="e0e3")
     return out
 
@@ -422,7 +441,7 @@ def quick_family():
             entries += _entries_for(_strip_dict_only(sp))
     # second covering array, axes in reverse order: the greedy completion realises other triples
     axes = dict(AXES)
-    axes["shape"] = ["1-1", "2-1", "1-2", "1-1-1"]
+    axes["shape"] = ["1-1", "2-1", "1-2", "1-1-1", "1-1-1-1"]
     for i, ch in enumerate(pairwise(axes, list(reversed(AXIS_ORDER)))):
         sp = build(ch, name=f"pwR-{i}")
         entries += _entries_for(sp)
@@ -432,6 +451,16 @@ def quick_family():
         entries.append((shipped_spec(n), "shipped"))
     entries.append(({"name": "tiny-gen", "gen": ["tiny-gen", 0]}, "generated"))
     entries.append(({"name": "tiny-gen-rgoal", "gen": ["tiny-gen-rgoal", 1]}, "generated"))
+    # scenarios straight out of the generator (firewall rules as sets, NumPy topology, np.str_ names)
+    for seed in (0, 1):
+        entries.append(({"name": f"gen5-s{seed}", "genparams": {
+            "num_hosts": 5, "num_services": 2, "num_os": 2, "num_processes": 2, "exploit_probs": 0.5,
+            "privesc_probs": 0.75, "restrictiveness": 1, "r_sensitive": 10, "r_user": 7.5, "exploit_cost": 2,
+            "host_discovery_value": 0.5, "base_host_value": 1, "step_limit": 3 if seed else None, "seed": seed}}, "generated"))
+    entries.append(({"name": "gen4-uniform", "genparams": {
+        "num_hosts": 4, "num_services": 3, "num_os": 3, "num_processes": 1, "uniform": True, "random_goal": True,
+        "exploit_probs": None, "num_exploits": 4, "restrictiveness": 2, "seed": 3,
+        "address_space_bounds": (7, 6)}}, "generated"))
     return entries
 
 
